@@ -620,6 +620,16 @@ func (s *sysRun) userOp() {
 				p.Priority = option.Some([]int{math.MaxInt, math.MinInt, math.MaxInt - 1, math.MinInt + 1}[s.r.Intn(4)])
 			}
 		}
+		if s.r.Intn(6) == 0 {
+			// a tie with the present head, decided by priority alone - sometimes by priorities at the ends of the range
+			if t, err := s.core.GetNext(ctx); err == nil {
+				p.ScheduledAt = option.Some(t.ScheduledAt)
+				p.Priority = option.Some([]int{t.Priority + 1, math.MaxInt, math.MaxInt - 1, 1}[s.r.Intn(4)])
+				if t.Priority == math.MaxInt {
+					p.Priority = option.Some(math.MaxInt)
+				}
+			}
+		}
 		fresh := fmt.Sprintf("t%d", s.idCtr+1)
 		p.Param = option.Some(map[string]string{"id": fresh})
 		t, err := s.obs.AddTask(ctx, p)
